@@ -206,7 +206,9 @@ func buildMultipart(parts []mpPart) (string, []byte) {
 	for _, p := range parts {
 		h := textproto.MIMEHeader{}
 		if p.filename != "" {
-			h.Set("Content-Disposition", fmt.Sprintf(`form-data; name=%q; filename=%q`, p.name, p.filename))
+			// quoted-string escaping as mime/multipart does it (not Go's %q, which spells non-printable runes as \uXXXX)
+			esc := strings.NewReplacer("\\", "\\\\", `"`, "\\\"")
+			h.Set("Content-Disposition", `form-data; name="`+esc.Replace(p.name)+`"; filename="`+esc.Replace(p.filename)+`"`)
 			h.Set("Content-Type", "application/octet-stream")
 		} else {
 			h.Set("Content-Disposition", fmt.Sprintf(`form-data; name=%q`, p.name))
